@@ -17,7 +17,10 @@ func (s *Splitter) Next() (ret string) {
 		return ""
 	}
 
-	idx := strings.Index(s.S[s.next:], s.Delim)
+	idx := -1
+	if s.Delim != "" {
+		idx = strings.Index(s.S[s.next:], s.Delim)
+	}
 	if idx < 0 {
 		ret = s.S[s.next:]
 		s.next = -1
@@ -26,7 +29,7 @@ func (s *Splitter) Next() (ret string) {
 	idx += s.next
 
 	ret = s.S[s.next:idx]
-	s.next = idx + 1
+	s.next = idx + len(s.Delim)
 	return
 }
 
